@@ -48,6 +48,10 @@ type devSpec struct {
 	authOn    bool
 	dohOnly   bool
 	password  string // "" = no password set (allow-all authenticator)
+
+	// badHash, if not nil, is stored in place of the hash of password: bytes
+	// no password hashes to (not a bcrypt hash at all, or a damaged one).
+	badHash []byte
 	linkedIP  netip.Addr
 	dedicated netip.Addr
 	humanID   string // human-readable ID, in the case the device was named with
@@ -204,7 +208,11 @@ func buildUniverse(t *kernel.Tape) (u *universe) {
 			prof:     u.profs[t.Choose(3, "dev-prof")],
 			attached: i != 5 || t.Chance(1, 2, "dev-attached"),
 		}
-		switch t.Choose(5, "auth") {
+		switch t.Choose(6, "auth") {
+		case 5:
+			d.authOn, d.password = true, "right"
+			d.dohOnly = t.Chance(1, 2, "bad-hash-doh-only")
+			d.badHash = kernel.Pick(t, [][]byte{{}, []byte("test"), bcryptRight[:20], append([]byte("$9z$"), bcryptRight[4:]...)}, "bad-hash")
 		case 1:
 			d.authOn, d.password = true, "right"
 		case 2:
@@ -267,6 +275,9 @@ func (u *universe) materialise() {
 		var auth agdpasswd.Authenticator = agdpasswd.AllowAuthenticator{}
 		if d.password != "" {
 			auth = agdpasswd.NewPasswordHashBcrypt(bcryptRight)
+		}
+		if d.badHash != nil {
+			auth = agdpasswd.NewPasswordHashBcrypt(d.badHash)
 		}
 		d.rec = &agd.Device{
 			Auth:             &agd.AuthSettings{Enabled: d.authOn, DoHAuthOnly: d.dohOnly, PasswordHash: auth},
@@ -576,6 +587,9 @@ func (u *universe) identify(r *request) (who string, why string) {
 			if d.password != "" && r.pass != d.password {
 				return "", "wrong password"
 			}
+			if d.badHash != nil {
+				return "", "no password matches what is stored for the device"
+			}
 		}
 	}
 
@@ -793,7 +807,7 @@ func run(s *kernel.Sim, prop, cfg string) {
 			default:
 				d := kernel.Pick(t, u.devs, "changed-device")
 				if !d.auto {
-					d.authOn, d.dohOnly, d.password = false, false, ""
+					d.authOn, d.dohOnly, d.password, d.badHash = false, false, "", nil
 					switch t.Choose(5, "auth") {
 					case 1:
 						d.authOn, d.password = true, "right"
